@@ -410,7 +410,12 @@ class RequestWideParams(object):
         # of an integer.
         if limit:
             # The schema validation sees the last of repeated parameters.
-            limit = int(limit[-1])
+            try:
+                limit = int(limit[-1])
+            except ValueError:
+                # All digits, but more of them than int() converts.
+                raise webob.exc.HTTPBadRequest(
+                    'Invalid query string parameters: limit is too large')
 
         # TODO(efried): Make it an error to specify group_policy more than once
         #  - maybe when we make it optional.
